@@ -18,8 +18,9 @@ META = {
     "level_note": "Bounded (constants in spec/MC_HttpRequest*_*.cfg); beyond them randomized (seeded) recorded streams. Memory "
                   "errors and termination are observed (ASan/LSan, time bound), not decided by the model. Outside the strict "
                   "grammar (bare-LF line ends, folded lines, invalid escapes, malformed tails) the spec leaves the result open "
-                  "and only the universal clauses (no '..', no memory error, prompt return, bounds) are checked. A request cut "
-                  "inside a length field delivers nothing; truncated-read garbage is not visible to ASan.",
+                  "and only the universal clauses (no '..', no memory error, prompt return, bounds) are checked. Lines stay "
+                  "below the 16000-byte cap of Socket::readLine (the cap itself is not modelled); input timing is varied "
+                  "only in the recorded runs (dribbled input), not enumerated.",
 }
 
 
